@@ -22,7 +22,7 @@ K = 1e4
 
 @st.composite
 def _case(draw, max_n, decades=1.0, anchored=False):
-    cvx = draw(zoo.convex3d(max_n=max_n))
+    cvx = draw(zoo.convex3d(max_n=max_n, kinds=("ellipsoid", "lattice", "prismatoid", "tabulated", "ellipsoid", "lattice", "prismatoid", "tabulated", "sliver")))
     pl = draw(zoo.placement(max_offset=10.0, scale_decades=decades))
     n = 80
     out = {"cvx": cvx, "place": pl, "perm": draw(zoo.noise(n)), "perm2": draw(zoo.noise(n)),
@@ -67,7 +67,9 @@ def _measures(rec, V, tag, sig0):
         a, c = geom.face_area_centroid(V[fc])
         areas[face_key(fc)] = a
         cents[face_key(fc)] = c
-    rec.close("surface_area", get(poly, "surface_area"), sum(areas.values()), T["area"], sig0, tag=tag)
+    # areas come from cross products of edge vectors (differences), not from origin-based sums: the largest error seen
+    # over 1e5 cases was 2e-4 (total) and 2.5e-5 (per face) of K*eps*n*L^2, so those tolerances are 100x / 1000x tighter
+    rec.close("surface_area", get(poly, "surface_area"), sum(areas.values()), T["area"] / 100, sig0, tag=tag)
     rec.close("centroid", get(poly, "centroid"), m["centroid"], T["m4"] / vol, sig0, tag=tag)
     rec.close("center", get(poly, "center"), m["centroid"], T["m4"] / vol, sig0, tag=tag)
     it = get(poly, "inertia_tensor")
@@ -92,12 +94,12 @@ def _measures(rec, V, tag, sig0):
         if isinstance(fa, Raised):
             rec.fail("get_face_area", dict(sig0, type=fa.type), msg=fa.msg)
         else:
-            rec.close("get_face_area", np.asarray(fa, dtype=float), [areas[k] for k in pf], T["area"], sig0, tag=tag)
+            rec.close("get_face_area", np.asarray(fa, dtype=float), [areas[k] for k in pf], T["area"] / 1000, sig0, tag=tag)
             j = len(pf) // 2
             one = call(poly.get_face_area, j)
-            rec.close("get_face_area_single", one, areas[pf[j]], T["area"], sig0, tag=tag)
+            rec.close("get_face_area_single", one, areas[pf[j]], T["area"] / 1000, sig0, tag=tag)
             sub = call(poly.get_face_area, [j, 0])
-            rec.close("get_face_area_list", np.asarray(sub, dtype=float), [areas[pf[j]], areas[pf[0]]], T["area"], sig0)
+            rec.close("get_face_area_list", np.asarray(sub, dtype=float), [areas[pf[j]], areas[pf[0]]], T["area"] / 1000, sig0)
         fcn = get(poly, "face_centroids")
         rec.close("face_centroids", fcn, np.array([cents[k] for k in pf]), T["len"] * 10, sig0, tag=tag)
     return {"poly": poly, "m": m, "faces": set(pf), "T": T, "area": sum(areas.values()), "nfacets": len(facets),
@@ -154,7 +156,7 @@ def _convex(case, rec):
         a, T = r1["poly"], r1["T"]
         vol = r1["m"]["volume"]
         rec.close("order_volume", b.volume, a.volume, T["vol"], sig0)
-        rec.close("order_surface_area", b.surface_area, a.surface_area, T["area"], sig0)
+        rec.close("order_surface_area", b.surface_area, a.surface_area, T["area"] / 100, sig0)
         rec.close("order_centroid", b.centroid, a.centroid, T["m4"] / vol, sig0)
         rec.close("order_inertia", b.inertia_tensor, a.inertia_tensor, T["m5"], sig0)
         inv1 = {i: p1[i] for i in range(n)}
